@@ -93,7 +93,7 @@ def rt_record(p):
             'stems': Raw(stem_txt), 'stempcs': set(stems.keys())}
 
 
-def init_record(p):
+def init_record(p, hcase=0):
     tags = {}
     for (sec, off), lab in p.data_label.items():
         if sec == 'state':
@@ -102,7 +102,7 @@ def init_record(p):
                 tags[off] = t
     tag_txt = '<<>>' if not tags else '(' + ' @@ '.join(
         '%d :> TG("%s", %d, %d)' % (a, t['t'], t['x'], t['y']) for a, t in sorted(tags.items())) + ')'
-    return {'m': list(p.state), 'c': list(p.const), 'tags': Raw(tag_txt), 'tagdom': set(tags.keys())}
+    return {'m': list(p.state), 'c': list(p.const), 'tags': Raw(tag_txt), 'tagdom': set(tags.keys()), 'hcase': hcase}
 
 
 class Case:
@@ -130,7 +130,7 @@ def export_batch(cases):
             index[gkey] = len(groups)
             groups.append({'code': code, 'rt': rt, 'inits': [], 'w': c.program.word})
         g = groups[index[gkey]]
-        g['inits'].append(init_record(c.program))
+        g['inits'].append(init_record(c.program, c.meta.get('hcase', 0)))
         c.prog = index[gkey] + 1
         c.inp = len(g['inits'])
     parts = []
